@@ -297,6 +297,9 @@ def run(ch: Checker) -> None:
     pipeline_reset_check(ch, 'C02.6')
     chunk_decoder_checks(ch, 'C02.7', 'C02.7', 'C02.7')
     completion_typestate_check(ch, 'C02.8')
+    ch.rule('C02.16', 'HttpParser.headers is None for a well-formed message without header fields: every use of it as an object is behind a branch that found it present, and no method asserts that it is there', 4)
+    from .common import optional_field_check
+    optional_field_check(ch, 'C02.16', 'HttpParser', 'self.headers', 'a request line followed directly by the empty line has no header fields and is still a request to forward')
     ch.import_rules('C01', {'C01.2': 'C02.13', 'C01.3': 'C02.14'}, 'the body reaches the origin byte-identical only if the connection buffer sends exactly what was queued, also on short writes')
     opaque_relay_check(ch, 'C02.9')
     # C02.12 configured names are stored the way the filter looks them up
@@ -309,6 +312,7 @@ def run(ch: Checker) -> None:
              'the names given to --disable-headers are stored as %s while HttpParser.build() looks up `name.lower()`: a name written with an upper-case letter never matches and the header is '
              'forwarded to the origin' % ([norm(c.elt) for c in comps12] or 'nothing recognisable'))
     ch.import_rules('C14', {'C14.7': 'C02.10', 'C14.6': 'C02.11'}, 'the origin-form target and the Host the origin sees are those of the request only if the request target is split into authority and path at the right place')
+    ch.import_rules('C04', {'C04.4': 'C02.15'}, 'a request at a later position on the connection reaches the origin as sent only if its parser is neither reused from the previous request nor dropped while half filled')
 
 
 def _loop_form_headers(g: Any, p: Any, sym: Sym, hv: Optional[ast.AST], ridx: int) -> Optional[Dict[str, str]]:
